@@ -228,7 +228,9 @@ func (e *Exec) storeAddr(fr *frame, st *State, a *Addr, v Val, pos token.Pos) {
 		e.curStoreVal = nil
 		h := e.fieldHeap(a.Owner, a.Fld)
 		e.frameCheck(fr, st, h, a.Ref, pos)
+		oldFieldVal := Val{T: sel(e.heapTerm(st, h), a.Ref), S: v.S, GoT: t}
 		e.setHeap(st, h, sto(e.heapTerm(st, h), a.Ref, v.T))
+		e.ghostOnFieldStore(fr, st, a, oldFieldVal, vv)
 	case aBox:
 		h := e.boxHeap(t)
 		e.frameCheck(fr, st, h, a.Ref, pos)
@@ -367,5 +369,37 @@ func (e *Exec) accessRulesT(fr *frame, st *State, tname, fname, owner string, ow
 			mode = "write"
 		}
 		e.oblige(fr, st, "lock:"+tname+"."+fname, mode+" of "+tname+"."+fname+" requires "+r.Src, pos, v.T)
+	}
+}
+
+// ghostOnFieldStore: `ghostset g = expr onstore field T.f`: ghost assignment
+// right after a store to field f of an object of type T in the function under
+// verification (`owner`, `value`, `oldvalue` are available in expr).
+func (e *Exec) ghostOnFieldStore(fr *frame, st *State, a *Addr, oldV, newV Val) {
+	if e.topFrame == nil || e.topFrame.spec == nil || len(e.topFrame.spec.GhostSets) == 0 {
+		return
+	}
+	key := "@field:" + typeShortName(a.Owner) + "." + a.Owner.Underlying().(*types.Struct).Field(a.Fld).Name()
+	for _, gs := range e.topFrame.spec.GhostSets {
+		if gs.OnStore != key {
+			continue
+		}
+		g, ok := e.ss.GhostVars[gs.Var]
+		if !ok {
+			e.specErrors = append(e.specErrors, "ghostset: unknown ghost variable "+gs.Var)
+			continue
+		}
+		genv := e.specEnv(e.topFrame, st, nil)
+		for k, v := range e.topFrame.entryParams {
+			if _, isLocal := e.topFrame.locals[k]; !isLocal {
+				genv.vars[k] = v
+			}
+		}
+		genv.vars["owner"] = Val{T: a.Ref, S: sInt, GoT: types.NewPointer(a.Owner)}
+		genv.vars["value"] = newV
+		genv.vars["oldvalue"] = oldV
+		v := genv.eval(gs.E)
+		genv.ghostVar(g)
+		e.setHeap(st, "G$"+gs.Var, v.T)
 	}
 }
